@@ -324,3 +324,741 @@ Proof.
   destruct G as (_ & _ & _ & _ & _ & E). exact E.
 Qed.
 End Text.
+
+(* ================================================================================================================ *)
+(* The blocked routine.  Part E: one block = the row-serial step with the border delta as input.                       *)
+(* ================================================================================================================ *)
+
+(* the column recurrence with an arbitrary match flag per row *)
+Fixpoint next_col_g (eqs : list bool) (prev : list Z) (diag left : Z) : list Z :=
+  match eqs, prev with
+  | e :: eqs', up :: prev' =>
+    let v := Z.min (Z.min (diag + (if e then 0 else 1)) (up + 1)) (left + 1) in
+    v :: next_col_g eqs' prev' up v
+  | _, _ => []
+  end.
+
+Lemma next_col_is_g : forall c p prev diag left, next_col c p prev diag left = next_col_g (map (fun pi => pi =? c) p) prev diag left.
+Proof.
+  intros c p. induction p as [|pi p IH]; intros prev diag left; [reflexivity|].
+  destruct prev as [|up prev]; [reflexivity|]. cbn [next_col map next_col_g]. f_equal. apply IH.
+Qed.
+
+Lemma serial_next_col_g : forall eqs vps vns hp hn diag,
+  length vps = length eqs -> length vns = length eqs -> valid vps vns -> hp && hn = false ->
+  let r := serial eqs vps vns hp hn in
+  let new := next_col_g eqs (vals diag vps vns) diag (diag + dv hp hn) in
+  new = vals (diag + dv hp hn) (fst (fst r)) (snd (fst r)) /\
+  valid (fst (fst r)) (snd (fst r)) /\ valid (fst (snd r)) (snd (snd r)) /\
+  zipdv (fst (snd r)) (snd (snd r)) = zipsub new (vals diag vps vns).
+Proof.
+  induction eqs as [|e eqs IH]; intros vps vns hp hn diag L1 L2 V H.
+  - destruct vps; [|discriminate]. destruct vns; [|discriminate]. cbn. repeat split; reflexivity.
+  - destruct vps as [|vp vps]; [discriminate|]. destruct vns as [|vn vns]; [discriminate|].
+    cbn [length] in L1, L2. injection L1 as L1. injection L2 as L2. destruct V as [V0 V].
+    cbn [serial vals next_col_g].
+    pose proof (cell_spec e vp vn hp hn diag V0 H) as (C1 & C2 & C3 & C4).
+    set (r0 := cellf e vp vn hp hn) in *.
+    set (up := diag + dv vp vn) in *.
+    set (d := Z.min (Z.min (diag + (if e then 0 else 1)) (up + 1)) (diag + dv hp hn + 1)) in *.
+    specialize (IH vps vns (fst (snd r0)) (snd (snd r0)) up L1 L2 V C2).
+    cbn zeta in IH.
+    assert (E : up + dv (fst (snd r0)) (snd (snd r0)) = d) by lia.
+    rewrite E in IH. destruct IH as (I1 & I2 & I3 & I4).
+    cbn [fst snd].
+    split; [|split; [|split]].
+    + cbn [vals]. rewrite I1. f_equal; [lia|]. f_equal. lia.
+    + cbn [valid]. split; [exact C1|exact I2].
+    + cbn [valid]. split; [exact C2|exact I3].
+    + cbn [zipdv zipsub]. rewrite I4. f_equal. exact C4.
+Qed.
+
+(* Myers' formulation of one block with an explicit carry-in instead of the "Eq |= 1" trick *)
+Definition adv_gen (Eq Pv Mv : word) (cin hpin hnin : bool) : (word * word) * (word * word) :=
+  let Xv := wor Eq Mv in
+  let Xh := wor (wxor (wadd_c (wand Eq Pv) Pv cin) Pv) Eq in
+  let Ph := wor Mv (wnotb (wor Xh Pv)) in
+  let Mh := wand Pv Xh in
+  let Ph1 := wshl_in Ph hpin in
+  let Mh1 := wshl_in Mh hnin in
+  ((wor Mh1 (wnotb (wor Xv Ph1)), wand Ph1 Xv), (Ph, Mh)).
+
+Lemma adv_gen_cons e Eq pv Pv mv Mv cin hpin hnin :
+  adv_gen (e :: Eq) (pv :: Pv) (mv :: Mv) cin hpin hnin =
+  let xh := xorb (xorb (xorb (e && pv) pv) cin) pv || e in
+  let ph := mv || negb (xh || pv) in
+  let mh := pv && xh in
+  let rest := adv_gen Eq Pv Mv (maj (e && pv) pv cin) ph mh in
+  (((hnin || negb ((e || mv) || hpin)) :: fst (fst rest), (hpin && (e || mv)) :: snd (fst rest)),
+   (ph :: fst (snd rest), mh :: snd (snd rest))).
+Proof. reflexivity. Qed.
+
+Lemma adv_gen_serial : forall Eq Pv Mv hpin hnin, length Pv = length Eq -> length Mv = length Eq ->
+  valid Pv Mv -> hpin && hnin = false ->
+  adv_gen Eq Pv Mv hnin hpin hnin = serial Eq Pv Mv hpin hnin.
+Proof.
+  induction Eq as [|e Eq IH]; intros Pv Mv hpin hnin L1 L2 V H.
+  - destruct Pv; [|discriminate]. destruct Mv; [|discriminate]. reflexivity.
+  - destruct Pv as [|pv Pv]; [discriminate|]. destruct Mv as [|mv Mv]; [discriminate|].
+    cbn [length] in L1, L2. injection L1 as L1. injection L2 as L2. destruct V as [V0 V].
+    rewrite adv_gen_cons. cbn zeta. cbn [serial]. unfold cellf. cbn [fst snd].
+    assert (XH : xorb (xorb (xorb (e && pv) pv) hnin) pv || e = e || hnin)
+      by (destruct e, pv, hnin; reflexivity).
+    rewrite XH.
+    assert (CARRY : maj (e && pv) pv hnin = pv && (e || hnin)) by (destruct e, pv, hnin; reflexivity).
+    rewrite CARRY.
+    (* the h-outputs of this row, in the cell function's form (they differ only where (pv, mv) would be invalid) *)
+    assert (PH : mv || negb (e || hnin || pv) = mv || negb (e || mv || hnin || pv))
+      by (destruct e, pv, mv, hnin; try discriminate; reflexivity).
+    assert (MH : pv && (e || hnin) = pv && (e || mv || hnin))
+      by (destruct e, pv, mv, hnin; try discriminate; reflexivity).
+    rewrite PH, MH.
+    assert (Hnext : (mv || negb (e || mv || hnin || pv)) && (pv && (e || mv || hnin)) = false)
+      by (destruct e, pv, mv, hnin; try discriminate; reflexivity).
+    rewrite (IH Pv Mv (mv || negb (e || mv || hnin || pv)) (pv && (e || mv || hnin)) L1 L2 V Hnext).
+    replace (hnin || negb (e || mv || hpin)) with (hnin || negb (e || mv || hnin || hpin))
+      by (destruct e, mv, hnin, hpin; reflexivity).
+    replace (hpin && (e || mv)) with (hpin && (e || mv || hnin))
+      by (destruct e, mv, hnin, hpin; try discriminate; reflexivity).
+    reflexivity.
+Qed.
+
+(* setting bit 0 of Eq for a negative carry is the same as feeding the adder a carry-in *)
+Lemma set_bit0_is_carry : forall (e : bool) (Eq : word) (pv : bool) (Pv : word) (mv : bool) (Mv : word) (hpin hnin : bool),
+  let Eq' := if hnin then set_bit0 (e :: Eq) else (e :: Eq) in
+  let Xv := wor (e :: Eq) (mv :: Mv) in
+  let Xh := wor (wxor (wadd_c (wand Eq' (pv :: Pv)) (pv :: Pv) false) (pv :: Pv)) Eq' in
+  let Ph := wor (mv :: Mv) (wnotb (wor Xh (pv :: Pv))) in
+  let Mh := wand (pv :: Pv) Xh in
+  let Ph1 := wshl_in Ph hpin in
+  let Mh1 := wshl_in Mh hnin in
+  ((wor Mh1 (wnotb (wor Xv Ph1)), wand Ph1 Xv), (Ph, Mh)) = adv_gen (e :: Eq) (pv :: Pv) (mv :: Mv) hnin hpin hnin.
+Proof.
+  intros. unfold adv_gen. destruct hnin; [|reflexivity].
+  subst Eq' Xv Xh Ph Mh Ph1 Mh1. cbn [set_bit0].
+  cbn [wor wand wxor wzip wadd_c wnotb map wshl_in].
+  destruct e, pv; reflexivity.
+Qed.
+
+(* ---- Part F: bpm_advance_block is the row-serial step ------------------------------------------------------------- *)
+Lemma advance_bits_serial : forall Eq0 Pv Mv hIn, (1 <= length Eq0)%nat ->
+  length Pv = length Eq0 -> length Mv = length Eq0 -> valid Pv Mv ->
+  advance_bits Eq0 hIn Pv Mv =
+  let r := serial Eq0 Pv Mv (0 <? hIn) (hIn <? 0) in
+  (fst (fst r), snd (fst r), b2z (wbit (fst (snd r)) 63) - b2z (wbit (snd (snd r)) 63)).
+Proof.
+  intros Eq0 Pv Mv hIn L0 L1 L2 V.
+  destruct Eq0 as [|e Eq]; [simpl in L0; lia|].
+  destruct Pv as [|pv Pv]; [discriminate|]. destruct Mv as [|mv Mv]; [discriminate|].
+  assert (H : (0 <? hIn) && (hIn <? 0) = false).
+  { destruct (Z.ltb_spec 0 hIn), (Z.ltb_spec hIn 0); try reflexivity; lia. }
+  rewrite <- (adv_gen_serial (e :: Eq) (pv :: Pv) (mv :: Mv) (0 <? hIn) (hIn <? 0) L1 L2 V H).
+  rewrite <- (set_bit0_is_carry e Eq pv Pv mv Mv (0 <? hIn) (hIn <? 0)).
+  reflexivity.
+Qed.
+
+(* ---- Part G: a column of blocks ------------------------------------------------------------------------------------- *)
+Lemma last_consZ : forall (l : list Z) x d, last (x :: l) d = last l x.
+Proof. induction l as [|y l IH]; intros x d; [reflexivity|]. change (last (x :: y :: l) d) with (last (y :: l) d). rewrite !IH. reflexivity. Qed.
+
+Lemma next_col_g_app : forall e1 c1 e2 c2 d l, length c1 = length e1 ->
+  next_col_g (e1 ++ e2) (c1 ++ c2) d l =
+  let n1 := next_col_g e1 c1 d l in n1 ++ next_col_g e2 c2 (last c1 d) (last n1 l).
+Proof.
+  induction e1 as [|e e1 IH]; intros c1 e2 c2 d l L.
+  - destruct c1; [reflexivity|discriminate].
+  - destruct c1 as [|up c1]; [discriminate|]. cbn [length] in L. injection L as L.
+    cbn [app next_col_g]. rewrite IH by exact L. cbn zeta.
+    rewrite !last_consZ. reflexivity.
+Qed.
+
+Definition blk_ok (a : Z) (b : bblk) : Prop :=
+  length (bbP b) = W /\ length (bbM b) = W /\ valid (bbP b) (bbM b) /\ bbScore b = last (vals a (bbP b) (bbM b)) a.
+Fixpoint blocks_ok (a : Z) (bs : list bblk) : Prop :=
+  match bs with [] => True | b :: bs' => blk_ok a b /\ blocks_ok (bbScore b) bs' end.
+Fixpoint colvals (a : Z) (bs : list bblk) : list Z :=
+  match bs with [] => [] | b :: bs' => vals a (bbP b) (bbM b) ++ colvals (bbScore b) bs' end.
+
+Lemma last_zip_delta : forall (hp hn : list bool) (new old : list Z) l a,
+  zipdv hp hn = zipsub new old -> length hp = W -> length hn = W -> length new = W -> length old = W ->
+  b2z (wbit hp 63) - b2z (wbit hn 63) = last new l - last old a.
+Proof.
+  intros hp hn new old l a E L1 L2 L3 L4.
+  pose proof (f_equal (fun x => nth 63 x 0) E) as E'. cbn beta in E'.
+  rewrite nth_zipdv in E' by (rewrite ?L1, ?L2; unfold W; lia).
+  rewrite nth_zipsub in E' by (rewrite ?L3, ?L4; unfold W; lia).
+  rewrite (last_nth new), (last_nth old), L3, L4. unfold W. cbn [Nat.sub].
+  unfold wbit, dv in *.
+  rewrite (nth_indep new l 0) by (rewrite L3; unfold W; lia).
+  rewrite (nth_indep old a 0) by (rewrite L4; unfold W; lia). exact E'.
+Qed.
+
+Lemma column_bits_dp : forall eqs blocks a l,
+  length eqs = length blocks -> Forall (fun e => length e = W) eqs -> blocks_ok a blocks ->
+  (-1 <= l - a <= 1) ->
+  let r := column_bits eqs blocks (l - a) in
+  blocks_ok l (fst r) /\ colvals l (fst r) = next_col_g (concat eqs) (colvals a blocks) a l /\
+  length (fst r) = length blocks.
+Proof.
+  induction eqs as [|e eqs IH]; intros blocks a l L FE OK Hc.
+  - destruct blocks; [|discriminate]. cbn. auto.
+  - destruct blocks as [|b blocks]; [discriminate|]. cbn [length] in L. injection L as L.
+    inversion FE as [|? ? Le FE']; subst. destruct OK as [(P1 & P2 & PV & PS) OK'].
+    cbn [column_bits].
+    rewrite (advance_bits_serial e (bbP b) (bbM b) (l - a)) by (rewrite ?Le, ?P1, ?P2; unfold W; lia || assumption).
+    cbn zeta.
+    set (r := serial e (bbP b) (bbM b) (0 <? l - a) (l - a <? 0)).
+    assert (H : (0 <? l - a) && (l - a <? 0) = false).
+    { destruct (Z.ltb_spec 0 (l - a)), (Z.ltb_spec (l - a) 0); try reflexivity; lia. }
+    assert (DV : a + dv (0 <? l - a) (l - a <? 0) = l).
+    { unfold dv, b2z. destruct (Z.ltb_spec 0 (l - a)), (Z.ltb_spec (l - a) 0); lia. }
+    pose proof (serial_next_col_g e (bbP b) (bbM b) (0 <? l - a) (l - a <? 0) a) as S.
+    rewrite P1, P2, Le in S. specialize (S eq_refl eq_refl PV H). cbn zeta in S. fold r in S. rewrite DV in S.
+    destruct S as (S1 & S2 & S3 & S4).
+    destruct (serial_length e (bbP b) (bbM b) (0 <? l - a) (l - a <? 0)) as (A1 & A2 & A3 & A4); try (rewrite ?P1, ?P2, Le; reflexivity).
+    fold r in A1, A2, A3, A4. rewrite Le in A1, A2, A3, A4.
+    assert (Lold : length (vals a (bbP b) (bbM b)) = W) by (rewrite vals_length; [exact P1|rewrite P2, P1; reflexivity]).
+    assert (Lnew : length (next_col_g e (vals a (bbP b) (bbM b)) a l) = W).
+    { rewrite S1. rewrite vals_length; [exact A1|rewrite A2, A1; reflexivity]. }
+    pose proof (last_zip_delta _ _ _ _ l a S4 A3 A4 Lnew Lold) as HD.
+    set (h := b2z (wbit (fst (snd r)) 63) - b2z (wbit (snd (snd r)) 63)) in *.
+    (* the block's new score is the new value at its last row; the carry handed down is new - old there *)
+    assert (NS : bbScore b + h = last (next_col_g e (vals a (bbP b) (bbM b)) a l) l) by (rewrite PS; lia).
+    assert (HR : -1 <= h <= 1).
+    { unfold h, b2z. destruct (wbit (fst (snd r)) 63), (wbit (snd (snd r)) 63); lia. }
+    specialize (IH blocks (bbScore b) (bbScore b + h) L FE' OK').
+    replace (bbScore b + h - bbScore b) with h in IH by lia. specialize (IH HR). cbn zeta in IH.
+    destruct (column_bits eqs blocks h) as [rest c'] eqn:ER. cbn [fst snd] in *.
+    destruct IH as (I1 & I2 & I3).
+    split; [|split].
+    + cbn [blocks_ok bbScore]. split; [|exact I1].
+      unfold blk_ok. cbn [bbP bbM bbScore]. split; [exact A1|]. split; [exact A2|]. split; [exact S2|].
+      rewrite <- S1. exact NS.
+    + cbn [colvals bbP bbM bbScore concat]. rewrite next_col_g_app by (rewrite Lold, Le; reflexivity). cbn zeta.
+      rewrite <- S1. f_equal. rewrite I2. f_equal; [exact PS|exact NS].
+    + cbn [length]. f_equal. exact I3.
+Qed.
+
+(* ---- Part H: the text loop of bpm_block = the column recurrence over the wildcard-padded pattern ------------------- *)
+Definition sedg (rowsf : Z -> list bool) (M : nat) (k0 : Z) (text : list Z) : Z :=
+  snd (fold_left (fun st c => let '(col, best) := st in
+                              let col' := next_col_g (rowsf c) col 0 0 in (col', Z.min best (last col' 0)))
+                 text (map (fun i => Z.of_nat i + 1) (seq 0 M), k0)).
+
+Lemma vals_last_le : forall vps vns a, length vns = length vps -> last (vals a vps vns) a <= a + Z.of_nat (length vps).
+Proof.
+  induction vps as [|vp vps IH]; intros vns a L; [simpl; lia|].
+  destruct vns as [|vn vns]; [discriminate|]. cbn [vals]. rewrite last_consZ.
+  specialize (IH vns (a + dv vp vn)). cbn [length] in *. injection L as L. specialize (IH L).
+  unfold dv, b2z in *. destruct vp, vn; lia.
+Qed.
+
+Lemma last_app_ne : forall (l1 l2 : list Z) d, l2 <> [] -> last (l1 ++ l2) d = last l2 d.
+Proof.
+  induction l1 as [|x l1 IH]; intros l2 d H; [reflexivity|].
+  cbn [app]. destruct (l1 ++ l2) eqn:E.
+  - destruct l1; [simpl in E; subst; contradiction|discriminate].
+  - rewrite <- E. change (last (x :: l1 ++ l2) d) with (match l1 ++ l2 with [] => x | _ => last (l1 ++ l2) d end).
+    rewrite E. rewrite <- E. apply IH. exact H.
+Qed.
+
+Lemma vals_nonempty : forall vps vns a, (1 <= length vps)%nat -> length vns = length vps -> vals a vps vns <> [].
+Proof. intros [|vp vps] [|vn vns] a H L; simpl in *; try lia; discriminate. Qed.
+
+(* the score of the last block is the last value of the column, and it is at most 64 per block *)
+Lemma blocks_last : forall bs a, bs <> [] -> blocks_ok a bs ->
+  nth (length bs - 1) (map bbScore bs) 0 = last (colvals a bs) a /\
+  last (colvals a bs) a <= a + 64 * Z.of_nat (length bs).
+Proof.
+  induction bs as [|b bs IH]; intros a Hne OK; [contradiction|].
+  destruct OK as [(P1 & P2 & PV & PS) OK'].
+  assert (NE : vals a (bbP b) (bbM b) <> []) by (apply vals_nonempty; [rewrite P1; unfold W; lia|rewrite P2, P1; reflexivity]).
+  pose proof (vals_last_le (bbP b) (bbM b) a) as LE. rewrite P1 in LE. specialize (LE P2). rewrite <- PS in LE.
+  destruct bs as [|b2 bs].
+  - cbn [length map nth colvals]. rewrite app_nil_r. split; [simpl; exact PS|].
+    rewrite <- PS. unfold W in LE. cbn [length]. lia.
+  - assert (Hne2 : b2 :: bs <> []) by discriminate.
+    destruct (IH (bbScore b) Hne2 OK') as (I1 & I2).
+    cbn [colvals]. cbn [colvals] in I1, I2.
+    assert (NE2 : vals (bbScore b) (bbP b2) (bbM b2) ++ colvals (bbScore b2) bs <> []).
+    { destruct OK' as [(Q1 & Q2 & _) _]. intro E. apply app_eq_nil in E as [E _].
+      revert E. apply vals_nonempty; [rewrite Q1; unfold W; lia|rewrite Q2, Q1; reflexivity]. }
+    rewrite last_app_ne by exact NE2.
+    (* last with default a vs default (bbScore b): the list is non-empty *)
+    assert (LD : forall (l : list Z) d d', l <> [] -> last l d = last l d').
+    { induction l as [|x l IHl]; intros d d' Hl; [contradiction|]. rewrite !last_consZ. reflexivity. }
+    rewrite (LD _ a (bbScore b) NE2).
+    split.
+    + cbn [length]. replace (S (S (length bs)) - 1)%nat with (S (length bs)) by lia.
+      cbn [map nth]. cbn [length] in I1. replace (S (length bs) - 0)%nat with (S (length bs)) in I1 by lia.
+      replace (S (length bs) - 1)%nat with (length bs) in I1 by lia. exact I1.
+    + cbn [length] in *. unfold W in LE. lia.
+Qed.
+
+Lemma shrink_noop : forall fuel scores y lim, (1 <= fuel)%nat -> nth y scores 0 < lim -> shrink fuel scores y lim = y.
+Proof.
+  intros [|f] scores y lim H Hn; [lia|]. cbn [shrink].
+  destruct (Z.leb_spec lim (nth y scores 0)); [lia|reflexivity].
+Qed.
+
+Lemma div_ceil_facts m : (1 <= m)%nat ->
+  (1 <= div_ceil m 64)%nat /\ (m <= 64 * div_ceil m 64)%nat /\ (64 * div_ceil m 64 < m + 64)%nat.
+Proof.
+  intro H. unfold div_ceil. destruct (Nat.eqb_spec m 0); [lia|].
+  pose proof (Nat.div_mod m 64 ltac:(lia)) as D. pose proof (Nat.mod_upper_bound m 64 ltac:(lia)) as U.
+  destruct (Nat.eqb_spec (m mod 64) 0); lia.
+Qed.
+
+Lemma init_blocks_ok : forall k a0,
+  let bs := map (fun b => mkBB (repeat true W) (repeat false W) (Z.of_nat ((b + 1) * 64))) (seq a0 k) in
+  blocks_ok (Z.of_nat (a0 * 64)) bs /\
+  colvals (Z.of_nat (a0 * 64)) bs = map (fun i => Z.of_nat i + 1) (seq (a0 * 64) (64 * k)).
+Proof.
+  assert (G : forall k a, vals a (repeat true k) (repeat false k) = map (fun i => a + Z.of_nat i + 1) (seq 0 k)).
+  { induction k as [|k IH]; intro a; [reflexivity|]. cbn [repeat vals seq map]. unfold dv at 1. cbn [b2z].
+    f_equal; [lia|]. rewrite IH. rewrite <- seq_shift, map_map. apply map_ext. intro i. unfold dv. cbn [b2z]. lia. }
+  assert (V : forall k, valid (repeat true k) (repeat false k)).
+  { induction k; cbn [repeat valid]; [exact I|]. split; [reflexivity|assumption]. }
+  induction k as [|k IH]; intro a0; cbn zeta.
+  - cbn. split; [exact I|reflexivity].
+  - cbn [seq map blocks_ok colvals bbP bbM bbScore].
+    specialize (IH (S a0)). cbn zeta in IH. destruct IH as (I1 & I2).
+    assert (LAST : last (vals (Z.of_nat (a0 * 64)) (repeat true W) (repeat false W)) (Z.of_nat (a0 * 64)) = Z.of_nat ((a0 + 1) * 64)).
+    { rewrite G. unfold W. rewrite last_nth, map_length, seq_length.
+      rewrite (nth_indep _ _ (Z.of_nat (a0 * 64) + Z.of_nat 63 + 1)) by (rewrite map_length, seq_length; lia).
+      rewrite (map_nth (fun i => Z.of_nat (a0 * 64) + Z.of_nat i + 1)). rewrite seq_nth by lia. lia. }
+    split.
+    + split.
+      * unfold blk_ok. cbn [bbP bbM bbScore]. rewrite !repeat_length. split; [reflexivity|]. split; [reflexivity|].
+        split; [apply V|]. symmetry. exact LAST.
+      * replace ((a0 + 1) * 64)%nat with (S a0 * 64)%nat by lia. exact I1.
+    + rewrite G. replace ((a0 + 1) * 64)%nat with (S a0 * 64)%nat by lia. rewrite I2.
+      replace (64 * S k)%nat with (64 + 64 * k)%nat by lia. rewrite seq_app, map_app. f_equal.
+      * unfold W.
+        assert (SH : forall n s, seq s n = map (fun i => (s + i)%nat) (seq 0 n)).
+        { induction n as [|n IHn]; intro s0; [reflexivity|]. cbn [seq map]. f_equal; [lia|].
+          rewrite (IHn (S s0)). rewrite <- (seq_shift n 0), map_map. apply map_ext. intro i. lia. }
+        rewrite (SH 64%nat (a0 * 64)%nat). rewrite map_map. apply map_ext. intro i. lia.
+      * f_equal. f_equal. lia.
+Qed.
+
+Section BlockText.
+Variable p : list Z.
+Let m := Nat.min (length p) 1024.
+Let b_max := div_ceil m 64.
+Hypothesis Hm : (1 <= m)%nat.
+
+(* the match flags of the wildcard-padded pattern for text symbol c: one word per block *)
+Definition rows_pad (c : Z) : list bool := concat (map (fun b => peq_word c p m b) (seq 0 b_max)).
+
+Definition InvB (st : list bblk * nat * Z) (cb : list Z * Z) : Prop :=
+  let '(blocks, y, k) := st in
+  let '(col, best) := cb in
+  y = (b_max - 1)%nat /\ length blocks = b_max /\ blocks_ok 0 blocks /\ colvals 0 blocks = col /\ k = best.
+
+Lemma peq_words_len c : Forall (fun e => length e = W) (map (fun b => peq_word c p m b) (seq 0 b_max)).
+Proof. apply Forall_forall. intros e He. apply in_map_iff in He as (b & <- & _). unfold peq_word. rewrite map_length, seq_length. reflexivity. Qed.
+
+Lemma block_step_inv : forall blocks y k col best c, InvB (blocks, y, k) (col, best) ->
+  let eqs := map (fun b => peq_word c p m b) (seq 0 (S y)) in
+  let '(act, carry) := column_bits eqs (firstn (S y) blocks) 0 in
+  let blocks' := act ++ skipn (S y) blocks in
+  let y' := shrink (S y) (map bbScore blocks') y (Z.of_nat m + 64) in
+  let sy := nth y' (map bbScore blocks') 0 in
+  InvB (blocks', y', if sy <? k then sy else k)
+       (let col' := next_col_g (rows_pad c) col 0 0 in (col', Z.min best (last col' 0))).
+Proof.
+  intros blocks y k col best c (Hy & Hl & OK & Hc & Hk).
+  destruct (div_ceil_facts m Hm) as (B1 & B2 & B3). fold b_max in B1, B2, B3.
+  assert (SY : S y = b_max) by lia.
+  cbn zeta. rewrite SY. rewrite firstn_all2 by lia. rewrite skipn_all2 by lia.
+  pose proof (column_bits_dp (map (fun b => peq_word c p m b) (seq 0 b_max)) blocks 0 0) as D.
+  rewrite map_length, seq_length in D. specialize (D (eq_sym Hl) (peq_words_len c) OK ltac:(lia)).
+  cbn zeta in D. replace (0 - 0) with 0 in D by lia.
+  destruct (column_bits _ blocks 0) as [act carry]. cbn [fst snd] in D. destruct D as (D1 & D2 & D3).
+  rewrite app_nil_r.
+  assert (NE : act <> []) by (destruct act; [simpl in D3; lia|discriminate]).
+  destruct (blocks_last act 0 NE D1) as (L1 & L2).
+  rewrite D3, Hl in L1, L2.
+  assert (SC : nth y (map bbScore act) 0 < Z.of_nat m + 64).
+  { rewrite Hy. rewrite L1. lia. }
+  rewrite (shrink_noop b_max (map bbScore act) y (Z.of_nat m + 64)) by (lia || exact SC).
+  unfold InvB. split; [exact Hy|]. split; [rewrite D3; exact Hl|]. split; [exact D1|].
+  fold (rows_pad c) in D2. rewrite Hc in D2. split; [exact D2|].
+  rewrite Hy, L1, D2, Hk.
+  match goal with |- (if ?x <? _ then _ else _) = _ => destruct (Z.ltb_spec x best) as [Hlt|Hge] end.
+  - rewrite Z.min_r; [reflexivity|apply Z.lt_le_incl; exact Hlt].
+  - rewrite Z.min_l; [reflexivity|exact Hge].
+Qed.
+
+Theorem bpm_block_bits_is_padded_dp : forall t,
+  bpm_block_bits t p = sedg rows_pad (64 * b_max) (Z.of_nat m) (t ++ repeat 0 (64 * b_max - m)).
+Proof.
+  intro t. unfold bpm_block_bits, sedg. fold m. fold b_max.
+  destruct (div_ceil_facts m Hm) as (B1 & B2 & B3). fold b_max in B1, B2, B3.
+  replace (S (b_max - 1)) with b_max by lia.
+  set (step := fun (st : list bblk * nat * Z) (c : Z) =>
+    let '(blocks, y, k) := st in
+    let eqs := map (fun b => peq_word c p m b) (seq 0 (S y)) in
+    let '(act, carry) := column_bits eqs (firstn (S y) blocks) 0 in
+    let blocks' := act ++ skipn (S y) blocks in
+    let y' := shrink (S y) (map bbScore blocks') y (Z.of_nat m + 64) in
+    let sy := nth y' (map bbScore blocks') 0 in
+    (blocks', y', if sy <? k then sy else k)).
+  assert (G : forall text st cb, InvB st cb ->
+    InvB (fold_left step text st)
+         (fold_left (fun st c => let '(col, best) := st in let col' := next_col_g (rows_pad c) col 0 0 in (col', Z.min best (last col' 0))) text cb)).
+  { induction text as [|c text IH]; intros st cb H; [exact H|]. cbn [fold_left]. apply IH.
+    destruct st as [[blocks y] k]. destruct cb as [col best].
+    pose proof (block_step_inv blocks y k col best c H) as HS. cbn zeta in HS.
+    unfold step. destruct (column_bits _ (firstn (S y) blocks) 0) as [act carry]. exact HS. }
+  pose proof (init_blocks_ok b_max 0) as (I1 & I2). cbn zeta in I1, I2. rewrite Nat.mul_0_l in I1, I2.
+  specialize (G (t ++ repeat 0 (64 * b_max - m))
+                (map (fun b => mkBB (repeat true W) (repeat false W) (Z.of_nat ((b + 1) * 64))) (seq 0 b_max), (b_max - 1)%nat, Z.of_nat m)
+                (map (fun i => Z.of_nat i + 1) (seq 0 (64 * b_max)), Z.of_nat m)).
+  assert (I0 : InvB (map (fun b => mkBB (repeat true W) (repeat false W) (Z.of_nat ((b + 1) * 64))) (seq 0 b_max), (b_max - 1)%nat, Z.of_nat m)
+                    (map (fun i => Z.of_nat i + 1) (seq 0 (64 * b_max)), Z.of_nat m)).
+  { unfold InvB. split; [reflexivity|]. split; [rewrite map_length, seq_length; reflexivity|]. split; [exact I1|]. split; [exact I2|reflexivity]. }
+  specialize (G I0).
+  destruct (fold_left step _ _) as [[blocks y] k].
+  destruct (fold_left _ (t ++ repeat 0 (64 * b_max - m)) (map _ _, Z.of_nat m)) as [col best].
+  destruct G as (_ & _ & _ & _ & E). exact E.
+Qed.
+End BlockText.
+
+(* ================================================================================================================ *)
+(* Part I: the wildcard rows and the text padding are neutral.                                                          *)
+(* ================================================================================================================ *)
+Definition minl (x : Z) (l : list Z) : Z := fold_left Z.min l x.
+
+Lemma minl_le_init : forall l x, minl x l <= x.
+Proof. induction l as [|y l IH]; intro x; simpl; [lia|]. etransitivity; [apply IH|]. lia. Qed.
+Lemma minl_le_elem : forall l x y, In y l -> minl x l <= y.
+Proof.
+  induction l as [|z l IH]; intros x y H; [contradiction|]. simpl. destruct H as [->|H].
+  - etransitivity; [apply minl_le_init|]. lia.
+  - apply IH. exact H.
+Qed.
+Lemma minl_ge : forall l x b, b <= x -> (forall y, In y l -> b <= y) -> b <= minl x l.
+Proof.
+  induction l as [|z l IH]; intros x b Hx H; simpl; [exact Hx|].
+  apply IH; [|intros y Hy; apply H; right; exact Hy]. specialize (H z (or_introl eq_refl)). lia.
+Qed.
+
+(* the wildcard rows below a row whose values along the text are A 0, A 1, ..: Wm r j is the value r rows below *)
+Section Wild.
+Variable A : nat -> Z.
+Fixpoint Wm (r : nat) : nat -> Z :=
+  match r with
+  | O => A
+  | S r' => fix row (j : nat) : Z :=
+      match j with
+      | O => A 0%nat + Z.of_nat (S r')
+      | S j' => Z.min (Z.min (Wm r' j' + 0) (row j' + 1)) (Wm r' (S j') + 1)
+      end
+  end.
+
+Lemma Wm_S_S r j : Wm (S r) (S j) = Z.min (Z.min (Wm r j + 0) (Wm (S r) j + 1)) (Wm r (S j) + 1).
+Proof. reflexivity. Qed.
+Lemma Wm_S_0 r : Wm (S r) 0 = A 0%nat + Z.of_nat (S r).
+Proof. reflexivity. Qed.
+
+(* following the diagonal through the wildcards costs nothing *)
+Lemma Wm_diag : forall r j, Wm r (j + r) <= A j.
+Proof.
+  induction r as [|r IH]; intro j; [rewrite Nat.add_0_r; simpl; lia|].
+  replace (j + S r)%nat with (S (j + r)) by lia. rewrite Wm_S_S. specialize (IH j). lia.
+Qed.
+
+(* lower bound: with mu below every A j up to column n, and A never dropping by more than 1 per column *)
+Variable n : nat.
+Variable mu : Z.
+Hypothesis A_lb : forall j, (j <= n)%nat -> mu <= A j.
+Hypothesis A_step : forall j, A j - 1 <= A (S j).
+Hypothesis A0_lb : mu <= A 0%nat.
+
+Lemma A_far : forall j, mu - Z.max 0 (Z.of_nat j - Z.of_nat n) <= A j.
+Proof.
+  induction j as [|j IH]; [pose proof A0_lb; lia|].
+  destruct (Nat.le_gt_cases (S j) n) as [H|H]; [pose proof (A_lb (S j) H); lia|].
+  pose proof (A_step j). lia.
+Qed.
+
+Lemma Wm_lb : forall r j, mu - Z.max 0 (Z.of_nat j - Z.of_nat n - Z.of_nat r) <= Wm r j.
+Proof.
+  induction r as [|r IHr]; intro j.
+  - simpl. pose proof (A_far j). lia.
+  - induction j as [|j IHj].
+    + rewrite Wm_S_0. pose proof A0_lb. lia.
+    + rewrite Wm_S_S. pose proof (IHr j). pose proof (IHr (S j)). lia.
+Qed.
+End Wild.
+
+(* the wildcard part of a padded column evolves as Wm says *)
+Lemma wild_rows_step : forall (A : nat -> Z) j k r0,
+  next_col_g (repeat true k) (map (fun r => Wm A (S r) j) (seq r0 k)) (Wm A r0 j) (Wm A r0 (S j)) =
+  map (fun r => Wm A (S r) (S j)) (seq r0 k).
+Proof.
+  intros A j. induction k as [|k IH]; intro r0; [reflexivity|].
+  cbn [repeat seq map next_col_g]. rewrite <- Wm_S_S. f_equal. apply IH.
+Qed.
+
+(* a fold that carries (column, running minimum of the last entry) is the fold of the columns plus a minimum over prefixes *)
+Lemma fold_min_prefixes : forall (f : list Z -> Z -> list Z) T c0 b0,
+  fold_left (fun st c => let '(col, best) := st in let col' := f col c in (col', Z.min best (last col' 0))) T (c0, b0) =
+  (fold_left f T c0, minl b0 (map (fun j => last (fold_left f (firstn j T) c0) 0) (seq 1 (length T)))).
+Proof.
+  intros f T. induction T as [|c T IH] using rev_ind; intros c0 b0; [reflexivity|].
+  rewrite fold_left_app. rewrite IH. cbn [fold_left]. rewrite fold_left_app. cbn [fold_left]. f_equal.
+  rewrite app_length. cbn [length]. rewrite Nat.add_1_r. rewrite seq_S, map_app. unfold minl. rewrite fold_left_app.
+  cbn [map fold_left]. f_equal.
+  - f_equal. apply map_ext_in. intros j Hj. apply in_seq in Hj. rewrite firstn_app.
+    replace (j - length T)%nat with 0%nat by lia. cbn [firstn]. rewrite app_nil_r. reflexivity.
+  - rewrite firstn_all2 by (rewrite app_length; simpl; lia). rewrite fold_left_app. reflexivity.
+Qed.
+
+Lemma sedg_as_min rows M k0 text :
+  sedg rows M k0 text =
+  minl k0 (map (fun j => last (fold_left (fun col c => next_col_g (rows c) col 0 0) (firstn j text) (map (fun i => Z.of_nat i + 1) (seq 0 M))) 0)
+               (seq 1 (length text))).
+Proof.
+  unfold sedg.
+  exact (f_equal snd (fold_min_prefixes (fun col c => next_col_g (rows c) col 0 0) text (map (fun i => Z.of_nat i + 1) (seq 0 M)) k0)).
+Qed.
+
+Lemma sed_as_min t q :
+  sed t q =
+  minl (Z.of_nat (length q))
+       (map (fun j => last (fold_left (fun col c => next_col c q col 0 0) (firstn j t) (map (fun i => Z.of_nat i + 1) (seq 0 (length q)))) 0)
+            (seq 1 (length t))).
+Proof.
+  change (sed t q) with (let '(_, best) := fold_left (fun st c => let '(col, best) := st in let col' := next_col c q col 0 0 in (col', Z.min best (last col' 0))) t
+                                                   (map (fun i => Z.of_nat i + 1) (seq 0 (length q)), Z.of_nat (length q)) in best).
+  pose proof (fold_min_prefixes (fun col c => next_col c q col 0 0) t (map (fun i => Z.of_nat i + 1) (seq 0 (length q))) (Z.of_nat (length q))) as H.
+  cbv beta in H. rewrite H. reflexivity.
+Qed.
+
+Section Neutral.
+Variable q : list Z.
+Let m := length q.
+Hypothesis Hm : (1 <= m)%nat.
+Variable Wd : nat.                 (* number of wildcard rows = number of padding columns *)
+Variable t : list Z.
+Let n := length t.
+Let T := t ++ repeat 0 Wd.
+
+Definition rowsR (c : Z) : list bool := map (fun x => x =? c) q.
+Definition rowsP (c : Z) : list bool := rowsR c ++ repeat true Wd.
+Definition col0 : list Z := map (fun i => Z.of_nat i + 1) (seq 0 m).
+Definition stepR (col : list Z) (c : Z) : list Z := next_col_g (rowsR c) col 0 0.
+Definition stepP (col : list Z) (c : Z) : list Z := next_col_g (rowsP c) col 0 0.
+Definition Rcol (T' : list Z) : list Z := fold_left stepR T' col0.
+Definition A (j : nat) : Z := last (Rcol (firstn j T)) 0.
+
+Lemma next_col_g_length : forall eqs prev d l, length prev = length eqs -> length (next_col_g eqs prev d l) = length eqs.
+Proof.
+  induction eqs as [|e eqs IH]; intros prev d l L; [reflexivity|]. destruct prev as [|u prev]; [discriminate|].
+  cbn [next_col_g length]. f_equal. apply IH. simpl in L. lia.
+Qed.
+
+Lemma Rcol_length : forall T', length (Rcol T') = m.
+Proof.
+  intro T'. unfold Rcol. induction T' as [|c T' IH] using rev_ind.
+  - unfold col0. cbn [fold_left]. rewrite map_length, seq_length. reflexivity.
+  - rewrite fold_left_app. cbn [fold_left]. unfold stepR at 1. rewrite next_col_g_length; unfold rowsR; rewrite map_length; [reflexivity|exact IH].
+Qed.
+
+(* every real column is delta-encodable, and its last entry drops by at most one per text symbol *)
+Lemma Rcol_encodable : forall T', exists vps vns, Rcol T' = vals 0 vps vns /\ length vps = m /\ length vns = m /\ valid vps vns.
+Proof.
+  intro T'. unfold Rcol. induction T' as [|c T' IH] using rev_ind.
+  - exists (repeat true m), (repeat false m). cbn [fold_left]. rewrite !repeat_length. split; [|split; [reflexivity|split; [reflexivity|]]].
+    + unfold col0. assert (G : forall k a, vals a (repeat true k) (repeat false k) = map (fun i => a + Z.of_nat i + 1) (seq 0 k)).
+      { induction k as [|k IHk]; intro a; [reflexivity|]. cbn [repeat vals seq map]. unfold dv at 1. cbn [b2z].
+        f_equal; [lia|]. rewrite IHk. rewrite <- seq_shift, map_map. apply map_ext. intro i. unfold dv. cbn [b2z]. lia. }
+      rewrite G. apply map_ext. intro i. lia.
+    + clear. induction m as [|k IHk]; cbn [repeat valid]; [exact I|]. split; [reflexivity|exact IHk].
+  - destruct IH as (vps & vns & E & L1 & L2 & V). rewrite fold_left_app. cbn [fold_left]. unfold stepR at 1. rewrite E.
+    pose proof (serial_next_col_g (rowsR c) vps vns false false 0) as S.
+    unfold rowsR in S at 1 2. rewrite map_length in S. fold m in S. specialize (S L1 L2 V eq_refl). cbn zeta in S.
+    assert (Z0 : 0 + dv false false = 0) by reflexivity. rewrite !Z0 in S. destruct S as (S1 & S2 & _ & _).
+    destruct (serial_length (rowsR c) vps vns false false) as (A1 & A2 & _ & _); try (unfold rowsR; rewrite map_length; assumption).
+    unfold rowsR in A1, A2. rewrite map_length in A1, A2.
+    eexists _, _. split; [exact S1|]. split; [exact A1|]. split; [exact A2|exact S2].
+Qed.
+
+Lemma A_step : forall j, A j - 1 <= A (S j).
+Proof.
+  intro j. unfold A.
+  destruct (Nat.le_gt_cases (length T) j) as [H|H].
+  - rewrite !firstn_all2 by lia. lia.
+  - (* firstn (S j) T = firstn j T ++ [c] *)
+    assert (E : firstn (S j) T = firstn j T ++ [nth j T 0]).
+    { clear -H. revert j H. induction T as [|x l IH]; intros j H; [simpl in H; lia|].
+      destruct j; [reflexivity|]. cbn [firstn nth app]. f_equal. apply IH. simpl in H. lia. }
+    rewrite E. unfold Rcol at 2. rewrite fold_left_app. cbn [fold_left]. fold (Rcol (firstn j T)).
+    destruct (Rcol_encodable (firstn j T)) as (vps & vns & EV & L1 & L2 & V).
+    unfold stepR. rewrite EV.
+    pose proof (serial_next_col_g (rowsR (nth j T 0)) vps vns false false 0) as S.
+    unfold rowsR in S at 1 2. rewrite map_length in S. fold m in S. specialize (S L1 L2 V eq_refl). cbn zeta in S.
+    assert (Z0 : 0 + dv false false = 0) by reflexivity. rewrite !Z0 in S. destruct S as (S1 & _ & _ & S4).
+    set (new := next_col_g (rowsR (nth j T 0)) (vals 0 vps vns) 0 0) in *.
+    assert (Lold : length (vals 0 vps vns) = m) by (rewrite vals_length; [exact L1|rewrite L2, L1; reflexivity]).
+    assert (Lnew : length new = m).
+    { unfold new. rewrite next_col_g_length; unfold rowsR; rewrite map_length; [reflexivity|exact Lold]. }
+    pose proof (f_equal (fun l => nth (m - 1) l 0) S4) as E4. cbn beta in E4.
+    assert (LR : length (rowsR (nth j T 0)) = m) by (unfold rowsR; apply map_length).
+    destruct (serial_length (rowsR (nth j T 0)) vps vns false false) as (_ & _ & A3 & A4); try (rewrite LR; assumption).
+    rewrite LR in A3, A4.
+    rewrite nth_zipdv in E4 by (rewrite ?A3, ?A4; lia).
+    rewrite nth_zipsub in E4 by (rewrite ?Lnew, ?Lold; lia).
+    rewrite (last_nth new), (last_nth (vals 0 vps vns)), Lnew, Lold.
+    unfold dv, b2z in E4.
+    destruct (nth (m - 1) (fst (snd (serial (rowsR (nth j T 0)) vps vns false false))) false),
+             (nth (m - 1) (snd (snd (serial (rowsR (nth j T 0)) vps vns false false))) false); lia.
+Qed.
+
+(* the padded column is the real column followed by the wildcard rows Wm *)
+Definition colP0 : list Z := map (fun i => Z.of_nat i + 1) (seq 0 (m + Wd)).
+
+Lemma A0 : A 0 = Z.of_nat m.
+Proof.
+  unfold A, Rcol. cbn [firstn fold_left]. unfold col0. rewrite last_nth, map_length, seq_length.
+  rewrite (nth_indep _ 0 (Z.of_nat (m - 1) + 1)) by (rewrite map_length, seq_length; lia).
+  rewrite (map_nth (fun i => Z.of_nat i + 1)). rewrite seq_nth by lia. lia.
+Qed.
+
+Lemma Rcol_snoc T' c : Rcol (T' ++ [c]) = stepR (Rcol T') c.
+Proof. unfold Rcol. rewrite fold_left_app. reflexivity. Qed.
+
+Lemma Pcol_split : forall j, (j <= length T)%nat ->
+  fold_left stepP (firstn j T) colP0 = Rcol (firstn j T) ++ map (fun r => Wm A (S r) j) (seq 0 Wd).
+Proof.
+  induction j as [|j IH]; intro Hj.
+  - cbn [firstn fold_left]. unfold Rcol. cbn [fold_left]. unfold colP0, col0. rewrite seq_app, map_app. f_equal.
+    assert (SH : forall k s, seq s k = map (fun i => (s + i)%nat) (seq 0 k)).
+    { induction k as [|k IHk]; intro s0; [reflexivity|]. cbn [seq map]. f_equal; [lia|].
+      rewrite (IHk (S s0)). rewrite <- (seq_shift k 0), map_map. apply map_ext. intro i. lia. }
+    rewrite (SH Wd (0 + m)%nat). rewrite map_map. apply map_ext. intro r. rewrite Wm_S_0, A0. lia.
+  - assert (E : firstn (S j) T = firstn j T ++ [nth j T 0]).
+    { clear -Hj. revert j Hj. induction T as [|x l IHl]; intros j Hj; [simpl in Hj; lia|].
+      destruct j; [reflexivity|]. cbn [firstn nth app]. f_equal. apply IHl. simpl in Hj. lia. }
+    rewrite E. rewrite fold_left_app. cbn [fold_left]. rewrite IH by lia.
+    unfold stepP at 1. unfold rowsP.
+    rewrite next_col_g_app by (rewrite Rcol_length; unfold rowsR; rewrite map_length; reflexivity).
+    cbn zeta. rewrite Rcol_snoc. unfold stepR.
+    f_equal.
+    assert (Ej : last (Rcol (firstn j T)) 0 = Wm A 0 j) by reflexivity.
+    assert (ESj : last (next_col_g (rowsR (nth j T 0)) (Rcol (firstn j T)) 0 0) 0 = Wm A 0 (S j)).
+    { cbn [Wm]. unfold A. rewrite E. rewrite Rcol_snoc. reflexivity. }
+    rewrite Ej, ESj. apply wild_rows_step.
+Qed.
+
+Lemma last_app_map : forall (R : list Z) (g : nat -> Z) k d, last R d = g 0%nat ->
+  last (R ++ map (fun r => g (S r)) (seq 0 k)) d = g k.
+Proof.
+  intros R g [|k] d H; [cbn [seq map]; rewrite app_nil_r; exact H|].
+  rewrite seq_S, map_app, app_assoc. cbn [map]. apply last_last.
+Qed.
+
+Lemma last_Pcol : forall j, (j <= length T)%nat -> last (fold_left stepP (firstn j T) colP0) 0 = Wm A Wd j.
+Proof.
+  intros j Hj. rewrite Pcol_split by exact Hj.
+  apply (last_app_map (Rcol (firstn j T)) (fun r => Wm A r j) Wd 0). reflexivity.
+Qed.
+
+Theorem padding_neutral :
+  sedg rowsP (m + Wd) (Z.of_nat m) T = sed t q.
+Proof.
+  rewrite sedg_as_min, sed_as_min. fold m. fold colP0. fold col0. fold n.
+  change (fun col c => next_col_g (rowsP c) col 0 0) with stepP.
+  assert (SR : forall l c0, fold_left (fun col c => next_col c q col 0 0) l c0 = fold_left stepR l c0).
+  { induction l as [|c l IHl]; intro c0; [reflexivity|]. cbn [fold_left]. rewrite IHl. f_equal.
+    unfold stepR, rowsR. apply next_col_is_g. }
+  (* A agrees with the real columns over t *)
+  assert (AT : forall j, (j <= n)%nat -> last (fold_left (fun col c => next_col c q col 0 0) (firstn j t) col0) 0 = A j).
+  { intros j Hj. rewrite SR. unfold A, Rcol, T. rewrite firstn_app. replace (j - length t)%nat with 0%nat by (unfold n in Hj; lia).
+    cbn [firstn]. rewrite app_nil_r. reflexivity. }
+  assert (MU : map (fun j => last (fold_left (fun col c => next_col c q col 0 0) (firstn j t) col0) 0) (seq 1 n) = map A (seq 1 n)).
+  { apply map_ext_in. intros j Hj. apply in_seq in Hj. apply AT. lia. }
+  rewrite MU.
+  assert (LT : length T = (n + Wd)%nat) by (unfold T; rewrite app_length, repeat_length; reflexivity).
+  assert (PL : map (fun j => last (fold_left stepP (firstn j T) colP0) 0) (seq 1 (length T)) = map (Wm A Wd) (seq 1 (n + Wd))).
+  { rewrite LT. apply map_ext_in. intros j Hj. apply in_seq in Hj. apply last_Pcol. lia. }
+  rewrite PL.
+  apply Z.le_antisymm.
+  - (* <= : every candidate of the real minimum is matched by a padded column *)
+    apply minl_ge; [apply minl_le_init|].
+    intros y Hy. apply in_map_iff in Hy as (j & <- & Hj). apply in_seq in Hj.
+    etransitivity; [|apply (Wm_diag A Wd j)].
+    apply minl_le_elem. apply in_map_iff. exists (j + Wd)%nat. split; [reflexivity|]. apply in_seq. lia.
+  - (* >= : no padded column gets below the real minimum *)
+    apply minl_ge; [apply minl_le_init|].
+    intros y Hy. apply in_map_iff in Hy as (j & <- & Hj). apply in_seq in Hj.
+    pose proof (Wm_lb A n (minl (Z.of_nat m) (map A (seq 1 n)))) as LB.
+    assert (H1 : forall j0, (j0 <= n)%nat -> minl (Z.of_nat m) (map A (seq 1 n)) <= A j0).
+    { intros j0 Hj0. destruct j0 as [|j0]; [rewrite A0; apply minl_le_init|].
+      apply minl_le_elem. apply in_map_iff. exists (S j0). split; [reflexivity|]. apply in_seq. lia. }
+    assert (H3 : minl (Z.of_nat m) (map A (seq 1 n)) <= A 0) by (rewrite A0; apply minl_le_init).
+    specialize (LB H1 A_step H3 Wd j). lia.
+Qed.
+End Neutral.
+
+(* ---- the blocked routine, end to end ------------------------------------------------------------------------------- *)
+Lemma concat_blocks : forall (g : nat -> bool) k,
+  concat (map (fun b => map (fun i => g (64 * b + i)%nat) (seq 0 W)) (seq 0 k)) = map g (seq 0 (64 * k)).
+Proof.
+  intros g k. induction k as [|k IH]; [reflexivity|].
+  rewrite seq_S, map_app, concat_app, IH. cbn [map concat]. rewrite app_nil_r.
+  replace (64 * S k)%nat with (64 * k + 64)%nat by lia. rewrite seq_app, map_app. f_equal.
+  cbn [Nat.add]. unfold W.
+  assert (SH : forall n s, seq s n = map (fun i => (s + i)%nat) (seq 0 n)).
+  { induction n as [|n IHn]; intro s0; [reflexivity|]. cbn [seq map]. f_equal; [lia|].
+    rewrite (IHn (S s0)). rewrite <- (seq_shift n 0), map_map. apply map_ext. intro i. lia. }
+  rewrite (SH 64%nat (64 * k)%nat). rewrite map_map. reflexivity.
+Qed.
+
+Lemma nth_error_firstn_lt {X} : forall k i (l : list X), (i < k)%nat -> nth_error (firstn k l) i = nth_error l i.
+Proof.
+  induction k as [|k IH]; intros i l H; [lia|]. destruct l as [|x l]; [destruct i; reflexivity|].
+  destruct i; [reflexivity|]. cbn [firstn nth_error]. apply IH. lia.
+Qed.
+
+Lemma map_true_seq : forall k s, map (fun _ : nat => true) (seq s k) = repeat true k.
+Proof. induction k as [|k IH]; intro s; [reflexivity|]. cbn [seq map repeat]. f_equal. apply IH. Qed.
+
+Lemma sedg_ext : forall r1 r2 M k0 text, (forall c, r1 c = r2 c) -> sedg r1 M k0 text = sedg r2 M k0 text.
+Proof.
+  intros r1 r2 M k0 text H. unfold sedg. f_equal.
+  generalize (map (fun i => Z.of_nat i + 1) (seq 0 M), k0).
+  induction text as [|c text IH]; intro st; [reflexivity|]. cbn [fold_left]. destruct st as [col best].
+  rewrite H. apply IH.
+Qed.
+
+Theorem bpm_block_bits_is_sed : forall t p, (1 <= length p)%nat ->
+  bpm_block_bits t p = sed t (firstn 1024 p).
+Proof.
+  intros t p Hp.
+  set (m := Nat.min (length p) 1024).
+  assert (Hm : (1 <= m)%nat) by (unfold m; lia).
+  rewrite (bpm_block_bits_is_padded_dp p Hm t). fold m.
+  set (b_max := div_ceil m 64).
+  destruct (div_ceil_facts m Hm) as (B1 & B2 & B3). fold b_max in B1, B2, B3.
+  set (q := firstn 1024 p).
+  assert (Lq : length q = m) by (unfold q, m; rewrite firstn_length; lia).
+  set (Wd := (64 * b_max - m)%nat).
+  assert (EM : (64 * b_max = length q + Wd)%nat) by (rewrite Lq; unfold Wd; lia).
+  assert (Hq : (1 <= length q)%nat) by (rewrite Lq; exact Hm).
+  rewrite <- (padding_neutral q Hq Wd t). rewrite EM. rewrite <- Lq.
+  apply sedg_ext. intro c.
+  (* the match flags: concatenated block words = real rows followed by wildcards *)
+  unfold rows_pad. fold m. fold b_max. unfold peq_word.
+  pose proof (concat_blocks (fun pos => (m <=? pos)%nat || match nth_error p pos with Some x => x =? c | None => false end) b_max) as CB.
+  cbv beta in CB. etransitivity; [exact CB|]. clear CB.
+  rewrite EM, seq_app, map_app. unfold rowsP. f_equal.
+  - unfold rowsR. rewrite <- (eq_rows c q). apply map_ext_in. intros i Hi. apply in_seq in Hi.
+    replace (m <=? i)%nat with false by (symmetry; apply Nat.leb_gt; lia). cbn [orb].
+    unfold q. rewrite nth_error_firstn_lt by (unfold m in *; lia). reflexivity.
+  - cbn [Nat.add]. rewrite <- (map_true_seq Wd (length q)). apply map_ext_in. intros i Hi. apply in_seq in Hi.
+    replace (m <=? i)%nat with true by (symmetry; apply Nat.leb_le; lia). reflexivity.
+Qed.
